@@ -3,6 +3,8 @@ package rules
 import (
 	"fmt"
 	"go/token"
+	"go/types"
+	"sort"
 	"strings"
 
 	"golang.org/x/tools/go/ssa"
@@ -83,45 +85,92 @@ func c10Styles(c *Ctx, F *model.Fields) {
 	valueSyms := map[string]bool{}
 	propSyms := map[string]bool{}
 	tables := map[string]bool{}
-	for i, at := range A.Atoms {
-		k := at.Key
-		if !strings.HasPrefix(k, "mapok(") {
-			continue
+	// matcher atoms mention the rule they belong to: lookup(<table>,<prop>)#0[i] (comma-ok lookup, guarded by its ok
+	// flag) or lookup(<table>,<prop>)[i] (plain lookup: a missing entry is an empty list)
+	type grp struct {
+		table, prop string
+		commaOK     bool
+	}
+	groups := map[grp][]*pa.F{}
+	ruleOf := func(k string) (grp, string, bool) {
+		li := strings.Index(k, "lookup(")
+		if li < 0 {
+			return grp{}, "", false
 		}
-		inner := k[len("mapok(") : len(k)-1]
-		ci := strings.LastIndex(inner, ",")
-		// keys contain commas only inside nested calls; split on the last top-level comma
-		ci = lastTopComma(inner)
-		if ci < 0 {
-			continue
-		}
-		table, prop := inner[:ci], inner[ci+1:]
-		pfx := "lookup(" + table + "," + prop + ")#0["
-		var alts []*pa.F
-		for j, at2 := range A.Atoms {
-			k2 := at2.Key
-			switch {
-			case strings.HasPrefix(k2, "dyncall("+pfx) && strings.Contains(k2, "].handler;"):
-				v := k2[strings.Index(k2, "].handler;")+len("].handler;"):]
-				v = v[:strings.LastIndex(v, ")@")]
-				valueSyms[v] = true
-				alts = append(alts, pa.AtomF(j))
-			case strings.HasPrefix(k2, "stringInSlice(") && strings.HasSuffix(k2, ","+pfx+restIdx(k2, pfx)+"].enum)"):
-				v := k2[len("stringInSlice(") : len(k2)-len(","+pfx+restIdx(k2, pfx)+"].enum)")]
-				valueSyms[v] = true
-				alts = append(alts, pa.AtomF(j))
-			case strings.HasPrefix(k2, "(*regexp.Regexp).MatchString("+pfx) && strings.Contains(k2, "].regexp,"):
-				v := k2[strings.Index(k2, "].regexp,")+len("].regexp,") : len(k2)-1]
-				valueSyms[v] = true
-				alts = append(alts, pa.AtomF(j))
+		depth := 0
+		end := -1
+		for x := li + len("lookup"); x < len(k); x++ {
+			if k[x] == '(' {
+				depth++
+			} else if k[x] == ')' {
+				depth--
+				if depth == 0 {
+					end = x
+					break
+				}
 			}
 		}
-		if len(alts) == 0 {
+		if end < 0 {
+			return grp{}, "", false
+		}
+		inner := k[li+len("lookup(") : end]
+		ci := lastTopComma(inner)
+		if ci < 0 {
+			return grp{}, "", false
+		}
+		g := grp{table: inner[:ci], prop: inner[ci+1:]}
+		rest := k[end+1:]
+		switch {
+		case strings.HasPrefix(rest, "#0["):
+			g.commaOK = true
+			return g, k[li : end+1+len("#0[")], true
+		case strings.HasPrefix(rest, "["):
+			return g, k[li : end+1+len("[")], true
+		}
+		return grp{}, "", false
+	}
+	for j, at2 := range A.Atoms {
+		k2 := at2.Key
+		g, pfx, ok := ruleOf(k2)
+		if !ok {
 			continue
 		}
-		tables[table] = true
-		propSyms[prop] = true
-		goalAlts = append(goalAlts, pa.And(pa.AtomF(i), pa.Or(alts...)))
+		switch {
+		case strings.HasPrefix(k2, "dyncall("+pfx) && strings.Contains(k2, "].handler;"):
+			v := k2[strings.Index(k2, "].handler;")+len("].handler;"):]
+			v = v[:strings.LastIndex(v, ")@")]
+			valueSyms[v] = true
+			groups[g] = append(groups[g], pa.AtomF(j))
+		case strings.HasPrefix(k2, "stringInSlice(") && strings.HasSuffix(k2, ","+pfx+restIdx(k2, pfx)+"].enum)"):
+			v := k2[len("stringInSlice(") : len(k2)-len(","+pfx+restIdx(k2, pfx)+"].enum)")]
+			valueSyms[v] = true
+			groups[g] = append(groups[g], pa.AtomF(j))
+		case strings.HasPrefix(k2, "(*regexp.Regexp).MatchString("+pfx) && strings.Contains(k2, "].regexp,"):
+			v := k2[strings.Index(k2, "].regexp,")+len("].regexp,") : len(k2)-1]
+			valueSyms[v] = true
+			groups[g] = append(groups[g], pa.AtomF(j))
+		}
+	}
+	var gkeys []grp
+	for g := range groups {
+		gkeys = append(gkeys, g)
+	}
+	sort.Slice(gkeys, func(a, b int) bool {
+		return gkeys[a].table+"|"+gkeys[a].prop < gkeys[b].table+"|"+gkeys[b].prop
+	})
+	for _, g := range gkeys {
+		alts := groups[g]
+		if g.commaOK {
+			mk := A.AtomIndex("mapok(" + g.table + "," + g.prop + ")")
+			if mk < 0 {
+				continue
+			}
+			goalAlts = append(goalAlts, pa.And(pa.AtomF(mk), pa.Or(alts...)))
+		} else {
+			goalAlts = append(goalAlts, pa.Or(alts...))
+		}
+		tables[g.table] = true
+		propSyms[g.prop] = true
 	}
 	goal := pa.Or(goalAlts...)
 	R.Role("C10.R2", "style rule tables consulted in the declaration loop", len(tables), 2)
@@ -163,6 +212,46 @@ func c10Styles(c *Ctx, F *model.Fields) {
 	for k := range tm {
 		tl = append(tl, k)
 	}
+	// the verdict of a rule scan may travel in a flag (an inlined helper's result): track what is branched on between
+	// the first rule lookup and the end of the iteration, when that fits
+	{
+		after := map[*ssa.BasicBlock]bool{}
+		var stack []*ssa.BasicBlock
+		for b := range loop.Blocks {
+			for _, in := range b.Instrs {
+				if l, ok := in.(*ssa.Lookup); ok {
+					if mt, ok := l.X.Type().Underlying().(*types.Map); ok && strings.HasSuffix(mt.Elem().String(), "stylePolicy") {
+						stack = append(stack, b)
+					}
+				}
+			}
+		}
+		for len(stack) > 0 {
+			b := stack[len(stack)-1]
+			stack = stack[:len(stack)-1]
+			if after[b] || !loop.Blocks[b] || b == loop.Header {
+				continue
+			}
+			after[b] = true
+			stack = append(stack, b.Succs...)
+		}
+		tm2 := map[int]bool{}
+		for b := range after {
+			if ifi, ok := b.Instrs[len(b.Instrs)-1].(*ssa.If); ok {
+				A.Cond(ifi.Cond).Atoms(tm2)
+			}
+		}
+		var ext []int
+		for k := range tm2 {
+			if !tm[k] {
+				ext = append(ext, k)
+			}
+		}
+		sort.Ints(ext)
+		if len(tl)+len(ext) <= pa.MaxTracked-2 {
+			tl = append(tl, ext...)
+		}
+	}
 	q, err := A.NewQuery(tl)
 	if err != nil {
 		R.Unknown("C10.R2", "query", "(*Policy).sanitizeStyles", "", err.Error())
@@ -202,7 +291,7 @@ func c10Styles(c *Ctx, F *model.Fields) {
 			R.Check(A.Sym.Of(v) == wantStr, "C10.R3", key+":text", "(*Policy).sanitizeStyles: kept declaration text", pos, "dec.Property + \": \" + dec.Value of the matched declaration", "the kept text is "+A.Sym.Of(v))
 		}
 	}
-	R.Role("C10.R2", "appends to the kept-declaration list", nApp, 2)
+	R.Role("C10.R2", "appends to the kept-declaration list", nApp, 1)
 
 	// R3: stores to attr.Val after the parse, and returns
 	var attrAl *ssa.Alloc
